@@ -509,6 +509,8 @@ class DocSim(core.Engine):
             return [], None
         except core.HarnessError:
             raise
+        except docexec.ARITH_ERRORS:
+            return [], None      # an expression that does not evaluate (division by zero): nothing to judge
         except Exception as e:
             # An exception raised by library code while the executor re-reads the state after the call
             # (views, tokens, values) is a verdict, not a harness failure; one raised by harness code is not.
